@@ -349,7 +349,7 @@ def run(spec, mon):
         if i % 4 == 3:
             # outlines with several Examples sections, some of them header-only (no data rows)
             gen.update({"p_outline": 0.6, "max_examples": 3, "p_empty_examples": 0.4})
-        case = RB.gen_case(rng, gen=gen, p_stop=0.15, p_dry=0.05, p_noskipped=0.5)
+        case = RB.gen_case(rng, gen=gen, p_stop=0.15, p_dry=0.05, p_noskipped=0.5, p_names=0.1)
         case = hostile_program(case, rng, p=0.5 if i % 3 else 0.0)
         ud = []
         for sw in ("show_hostname", "show_multiline", "show_scenarios", "show_tags", "show_timings", "show_timestamp", "show_skipped_always"):
